@@ -8,37 +8,83 @@ Open Scope N_scope.
 Lemma recv_fb_open W lease s w : recv_fb W lease false s w = recv W lease s w.
 Proof. reflexivity. Qed.
 
-(* with the reassembly buffer at its limit nothing is ever output: no delivery, no alert, no
-   handshake progress - for EVERY record, authentic or not *)
-Theorem full_buffer_drops_everything W lease s w : snd (recv_fb W lease true s w) = [].
+(* the content a record is dispatched with, when it gets that far: is it a handshake record? *)
+Definition hs_content (w : wire) : bool :=
+  if w_epoch w =? 0 then is_hs (w_clear w)
+  else if w_ctype w =? ct_ccs then false
+  else match w_auth w with Some c => is_hs c | None => false end.
+
+Lemma is_hs_ccs_view c : is_hs (ccs_view c) = false.
+Proof. destruct c; reflexivity. Qed.
+
+(* a full reassembly buffer is invisible to every record that is not a handshake record: application data,
+   alerts, change_cipher_spec, ACKs, RRC and undecodable content are processed exactly as with room *)
+Theorem full_buffer_passes_non_handshake W lease s w :
+  hs_content w = false -> recv_fb W lease true s w = recv W lease s w.
 Proof.
-  unfold recv_fb, gated.
-  repeat match goal with
-         | |- context [if ?b then _ else _] => destruct b
-         | |- context [match ?x with Some _ => _ | None => _ end] => destruct x
-         end; reflexivity.
+  unfold hs_content, recv_fb, recv, gated. intro H.
+  destruct (r_closed s); [reflexivity|].
+  destruct (r_epoch s <? w_epoch w); [reflexivity|].
+  destruct (negb (check maxseq48 (get_win W (w_epoch w) (r_wins s)) (w_seq w))); [reflexivity|].
+  destruct (w_epoch w =? 0); [now rewrite H|].
+  destruct (negb (r_init s)); [reflexivity|].
+  destruct (negb (len (r_cid s) =? 0) && negb (w_ctype w =? ct_cid)); [reflexivity|].
+  destruct (w_ctype w =? ct_ccs); [now rewrite is_hs_ccs_view|].
+  destruct (w_auth w) as [c|]; [|reflexivity]. now rewrite H.
 Qed.
 
-Lemma full_buffer_keeps_windows W lease s w : r_wins (fst (recv_fb W lease true s w)) = r_wins s.
+(* ... and a handshake record is refused: no output (no handshake progress, no replay commit) *)
+Theorem full_buffer_refuses_handshake W lease s w :
+  hs_content w = true -> snd (recv_fb W lease true s w) = [].
 Proof.
-  unfold recv_fb, gated, enqueue.
-  repeat match goal with
-         | |- context [if ?b then _ else _] => destruct b
-         | |- context [match ?x with Some _ => _ | None => _ end] => destruct x
-         end; reflexivity.
+  unfold hs_content, recv_fb, gated. intro H.
+  destruct (r_closed s); [reflexivity|].
+  destruct (r_epoch s <? w_epoch w); [destruct (r_epoch s + 1 <? w_epoch w); reflexivity|].
+  destruct (negb (check maxseq48 (get_win W (w_epoch w) (r_wins s)) (w_seq w))); [reflexivity|].
+  destruct (w_epoch w =? 0); [now rewrite H|].
+  destruct (negb (r_init s)); [reflexivity|].
+  destruct (negb (len (r_cid s) =? 0) && negb (w_ctype w =? ct_cid)); [reflexivity|].
+  destruct (w_ctype w =? ct_ccs); [discriminate H|].
+  destruct (w_auth w) as [c|]; [|reflexivity].
+  destruct (negb (bytes_eqb (r_cid s) (if w_ctype w =? ct_cid then w_cid w else []))); [reflexivity|].
+  now rewrite H.
 Qed.
 
-(* the ideal statement "an authentic application record of the current epoch is delivered" fails
-   behind a full buffer: witness *)
+(* positive: with the buffer full, an authentic application record for an established, open connection is
+   delivered exactly when the replay detector of its epoch accepts its number - as with room *)
+Theorem appdata_delivered_with_full_buffer W lease s w p :
+  r_closed s = false -> r_init s = true -> w_epoch w <> 0 -> w_epoch w <= r_epoch s ->
+  w_ctype w <> ct_ccs -> w_auth w = Some (CApp p) ->
+  (len (r_cid s) = 0 \/ w_ctype w = ct_cid) ->
+  bytes_eqb (r_cid s) (if w_ctype w =? ct_cid then w_cid w else []) = true ->
+  deliveries (snd (recv_fb W lease true s w)) =
+    if check maxseq48 (get_win W (w_epoch w) (r_wins s)) (w_seq w) then [(p, w_epoch w, w_seq w)] else [].
+Proof.
+  intros Hc Hi He Hle Hct Ha Hp Hcid.
+  rewrite full_buffer_passes_non_handshake.
+  - now apply authentic_delivered_iff_window.
+  - unfold hs_content. destruct (w_epoch w =? 0) eqn:E0; [lia|].
+    destruct (w_ctype w =? ct_ccs); [reflexivity|]. now rewrite Ha.
+Qed.
+
 Definition wedge_state : rstate :=
   {| r_epoch := 1; r_wins := []; r_init := true; r_queue := []; r_cid := []; r_rrc := false; r_closed := false |}.
 Definition wedge_record : wire :=
   {| w_ctype := 23; w_epoch := 1; w_seq := 7; w_cid := []; w_auth := Some (CApp [42]); w_clear := CBad |}.
+Definition wedge_finished : wire :=
+  {| w_ctype := 22; w_epoch := 1; w_seq := 0; w_cid := []; w_auth := Some (CHs true false); w_clear := CBad |}.
 
-Theorem full_buffer_wedge_refuted :
-  deliveries (snd (recv_fb 64 true false wedge_state wedge_record)) = [([42], 1, 7)] /\
-  snd (recv_fb 64 true true wedge_state wedge_record) = [] /\
-  fst (recv_fb 64 true true wedge_state wedge_record) = wedge_state.
+(* regression witness of the repaired wedge: the application record is delivered behind a full buffer *)
+Theorem full_buffer_appdata_regression :
+  deliveries (snd (recv_fb 64 true true wedge_state wedge_record)) = [([42], 1, 7)].
+Proof. vm_compute. reflexivity. Qed.
+
+(* what remains: "an authentic handshake record of the expected flight makes the handshake progress" is
+   false behind a full buffer - the peer's Finished is refused, unchanged state, nothing committed *)
+Theorem full_buffer_handshake_wedge_refuted :
+  snd (recv_fb 64 true false wedge_state wedge_finished) = [OMark 1 0; OHs false] /\
+  snd (recv_fb 64 true true wedge_state wedge_finished) = [] /\
+  fst (recv_fb 64 true true wedge_state wedge_finished) = wedge_state.
 Proof. vm_compute. repeat split; reflexivity. Qed.
 
 (* ---------- datagrams that cannot be parsed as DTLS records ---------- *)
@@ -49,28 +95,17 @@ Proof.
   now rewrite IH.
 Qed.
 
-(* what IS dropped: empty datagrams, length/framing errors, records whose header does not decode *)
-Theorem undecodable_dropped_partial W full neg s d :
-  undecodable d -> d <> DOtherErr -> (d = DLenErr -> neg = false) -> recv_dgram W full neg s d = (s, []).
+(* every datagram that cannot be parsed as DTLS records - empty, any framing / record-type / unified-header
+   error of unpackDatagram, records whose header does not decode - is dropped without any effect, in every
+   state (handshake in progress, version negotiation, established) *)
+Theorem undecodable_dropped W full s d : undecodable d -> recv_dgram W full s d = (s, []).
 Proof.
-  intros Hu Hd Hn. unfold recv_dgram. destruct (r_closed s); [reflexivity|].
-  destruct d as [ | | | rs]; try reflexivity; [now rewrite (Hn eq_refl)|congruence|]. now apply recv_recs_bad.
+  intros Hu. unfold recv_dgram. destruct (r_closed s); [reflexivity|].
+  destruct d as [ | | | rs]; try reflexivity. now apply recv_recs_bad.
 Qed.
 
-(* the ideal statement "undecodable => no effect" is false for the code as it is: a datagram whose
-   framing error is not ErrInvalidPacketLength surfaces as an error (handshake abort / Read error) *)
-Theorem undecodable_dropped_refuted W full neg s :
-  r_closed s = false ->
-  exists d, undecodable d /\ recv_dgram W full neg s d = (s, [OErr]).
-Proof. intro Hc. exists DOtherErr. split; [exact I|]. unfold recv_dgram. now rewrite Hc. Qed.
-
-(* in the dual-stack version negotiation loop even a length/framing error ends the handshake *)
-Theorem undecodable_negotiating_refuted W full s :
-  r_closed s = false -> recv_dgram W full true s DLenErr = (s, [OErr]).
-Proof. intro Hc. unfold recv_dgram. now rewrite Hc. Qed.
-
-(* ... and so is "an unprotected record whose content does not decode has no effect": it is answered
-   with a fatal decode_error alert and surfaces as an error *)
+(* what remains false for the code as it is: "an unprotected record whose content does not decode has no
+   effect" - it is answered with a fatal decode_error alert and surfaces as an error *)
 Theorem undecodable_content_refuted W lease s w :
   r_closed s = false -> w_epoch w = 0 -> w_clear w = CBad -> r_epoch s = 0 \/ 0 < r_epoch s ->
   check maxseq48 (get_win W 0 (r_wins s)) (w_seq w) = true ->
